@@ -43,6 +43,8 @@ pub mod server;
 #[cfg(test)]
 pub(crate) mod test_utils;
 pub mod tls;
+#[cfg(iroh_verif)]
+pub mod verif_hooks;
 
 pub use crate::{
     key_cache::KeyCache,
